@@ -133,8 +133,12 @@ bool FeatureChecker::isRateDisallowedInSymbolic(const expression_t& e)
             return false;
         }
 
+        // the rate of something that is not a variable (e.g. 0') has been reported by the type checker
+        const auto symbol = clock.get(0).get_symbol();
+        if (symbol == symbol_t{})
+            return false;
         // rates over hybrid clocks are allowed, because they are ignored/abstracted in symbolic analysis
-        if (clock.get(0).get_symbol().get_type().is(Constants::HYBRID))
+        if (symbol.get_type().is(Constants::HYBRID))
             return false;
 
         if (rate.get_kind() != Constants::CONSTANT)
